@@ -82,13 +82,28 @@ def rule_pure1(prog, E):
         for p in E.summ[q].mutates if p < len(E.summ[q].pnames))]
     r.notes.append('functions that modify a Kripke parameter (must receive '
                    'a clone): %s' % sorted(E.summ[q].fi.short() for q in ext))
-    floor('R-PURE-1', 'functions requiring an owned structure', len(ext), 2)
+    undecided = None
     if failed:
         bad = [s for s in failed if s.fi.qn in reach]
         for s in bad:
-            raise Inconclusive('R-PURE-1', 'function %s reachable from '
-                               'modelcheck has no summary: %s' % (
-                                   s.fi.short(), s.failed), s.fi.where())
+            undecided = Inconclusive(
+                'R-PURE-1', 'function %s reachable from modelcheck has no '
+                'summary: %s' % (s.fi.short(), s.failed), s.fi.where())
+            break
+    if undecided is None:
+        for q in sorted(reach):
+            if E.summ[q].opaque:
+                undecided = Inconclusive(
+                    'R-PURE-1', 'function %s reachable from modelcheck '
+                    'hands its arguments to a computed function value '
+                    'whose effects are unknown: %s' % (
+                        E.summ[q].fi.short(), E.summ[q].opaque[0]),
+                    E.summ[q].fi.where())
+                break
+    if undecided is not None:
+        undecided.partial = r
+        raise undecided
+    floor('R-PURE-1', 'functions requiring an owned structure', len(ext), 2)
     return r
 
 
